@@ -309,6 +309,11 @@ function mapTy(t, f) { // bottom-up map over type nodes
   }
   return f(r);
 }
+// like mapProg, but a declaration whose own parameter is called `name` is left alone: inside it the name is the parameter
+function mapProgExcept(p, name, f, intoExtends = false) {
+  const q = mapProg(p, f, intoExtends);
+  return [q[0], q[1].map((d, i) => (p[1][i][2].includes(name) ? p[1][i] : d)), q[2]];
+}
 function mapProg(p, f, intoExtends = false) {
   // `extends` clauses only admit plain names: rewrites leave them alone (except renaming)
   return [p[0], p[1].map((d) => (head(d) === "alias" ? [d[0], d[1], d[2], mapTy(d[3], f)] : [d[0], d[1], d[2], intoExtends ? d[3].map((e) => mapTy(e, f)) : d[3], d[4].map(([k, o, ty]) => [k, o, mapTy(ty, f)])])), p[2].map(([n, t]) => [n, mapTy(t, f)])];
@@ -339,14 +344,14 @@ function applyRewrite(rng, p, kind) {
       if (!cands.length) return p;
       const d = rng.pick(cands);
       if (p[1].some((x) => head(x) === "iface" && x[3].some((e) => e[1] === d[1]))) return p; // `extends` needs a name
-      const q = mapProg(p, (t) => (head(t) === "ref" && t[1] === d[1] && t.length === 2 ? clone(d[3]) : t));
+      const q = mapProgExcept(p, d[1], (t) => (head(t) === "ref" && t[1] === d[1] && t.length === 2 ? clone(d[3]) : t));
       return q;
     }
     case "rename": {
       if (!p[1].length) return p;
       const d = rng.pick(p[1]);
       const nn = rng.pick(["Zz", "Aa", "Mm"]) + rng.below(1000);
-      const q = mapProg(p, (t) => (head(t) === "ref" && t[1] === d[1] ? [t[0], nn, ...t.slice(2)] : t), true);
+      const q = mapProgExcept(p, d[1], (t) => (head(t) === "ref" && t[1] === d[1] ? [t[0], nn, ...t.slice(2)] : t), true);
       return [q[0], q[1].map((x) => (x[1] === d[1] ? [x[0], nn, ...x.slice(2)] : x)), q[2]];
     }
     case "iface-alias": return [p[0], p[1].map((d) => (head(d) === "iface" && d[3].length === 0 ? [A("alias"), d[1], d[2], [A("obj"), d[4], A("none")]] : head(d) === "alias" && head(d[3]) === "obj" && isAtom(d[3][2], "none") && rng.chance(1, 2) ? [A("iface"), d[1], d[2], [], d[3][1]] : d)), p[2]];
